@@ -815,6 +815,11 @@ fn expand_home(tokens: &mut types::Tokens) {
 }
 
 fn env_in_token(token: &str) -> bool {
+    env_in_word(token, false)
+}
+
+/// `quoted`: the word was written in double quotes.
+fn env_in_word(token: &str, quoted: bool) -> bool {
     if libs::re::re_contains(token, r"\$\{?[\$\?]\}?") {
         return true;
     }
@@ -842,6 +847,10 @@ fn env_in_token(token: &str) -> bool {
     }
 
     // for cmd-line like `alias foo='echo $PWD'`
+    // (inside double quotes a `'` is an ordinary character)
+    if quoted {
+        return true;
+    }
     let ptn_env = format!(r"='.*\$\{{?{}\}}?.*'$", ptn_env_name);
     !libs::re::re_contains(token, &ptn_env)
 }
@@ -856,7 +865,8 @@ pub fn expand_env(sh: &Shell, tokens: &mut types::Tokens) {
             continue;
         }
 
-        if !env_in_token(token) {
+        let quoted = sep == "\"";
+        if !env_in_word(token, quoted) {
             idx += 1;
             continue;
         }
@@ -865,11 +875,11 @@ pub fn expand_env(sh: &Shell, tokens: &mut types::Tokens) {
         // again, whatever it contains
         let mut _token = String::new();
         let mut rest = token.clone();
-        while env_in_token(&rest) {
+        while env_in_word(&rest, quoted) {
             // the text of a command substitution is left alone: it is
             // planned, and expanded, when it runs
             if let Some((head, _, tail)) = split_first_substitution(&rest) {
-                if !env_in_token(&head) {
+                if !env_in_word(&head, quoted) {
                     let end = rest.len() - tail.len();
                     _token.push_str(&rest[..end]);
                     rest = tail;
